@@ -1,11 +1,11 @@
 #!/usr/bin/env python3
-"""Rewrite the round-2 seeded-change table of DESIGN.md from seeded/*/meta.json."""
+"""Rewrite the round-2/round-3 seeded-change table of DESIGN.md from seeded/*/meta.json."""
 import glob, json, os, re
 V = os.path.dirname(os.path.dirname(os.path.abspath(__file__)))
 rows = []
 for f in sorted(glob.glob(os.path.join(V, "seeded", "*", "meta.json"))):
     m = json.load(open(f))
-    if "-r2m" not in m["name"]:
+    if "-r2m" not in m["name"] and "-r3m" not in m["name"]:
         continue
     by = m.get("detected_by_other_check") or (m["property"] if m.get("detected") else "NOT YET")
     needs = re.sub(r"\s+", " ", m.get("needs_to_manifest", "")).strip().replace("|", "/")
